@@ -130,6 +130,10 @@ pub trait Scenario: Sync {
     fn exhaustive_note(&self) -> Option<&'static str> {
         None
     }
+    /// scenarios that need a differently built binary (shuttle build) name it here
+    fn worker_exe(&self) -> Option<String> {
+        None
+    }
 }
 
 // ------------------------------------------------------------------------------------------
@@ -291,6 +295,10 @@ pub fn load_known() -> KnownFile {
         Err(_) => KnownFile::default(),
     }
 }
+/// /verif itself even when VERIF_ROOT points at an audit sandbox (binaries live there)
+pub fn verif_root_real() -> String {
+    std::env::var("VERIF_BIN_ROOT").unwrap_or_else(|_| "/verif".to_string())
+}
 pub fn verif_root() -> String {
     std::env::var("VERIF_ROOT").unwrap_or_else(|_| "/verif".to_string())
 }
@@ -437,8 +445,8 @@ struct Worker {
     alive: bool,
 }
 
-fn spawn_worker(wid: usize, scenario: &str, property: &str, tier: Tier, seed: u64, tx: mpsc::Sender<Msg>) -> Worker {
-    let exe = std::env::current_exe().expect("current_exe");
+fn spawn_worker(wid: usize, scenario: &str, property: &str, tier: Tier, seed: u64, tx: mpsc::Sender<Msg>, exe: Option<String>) -> Worker {
+    let exe = exe.map(std::path::PathBuf::from).unwrap_or_else(|| std::env::current_exe().expect("current_exe"));
     let mut child = Command::new(exe)
         .args(["worker", "--scenario", scenario, "--property", property, "--tier", tier.name(), "--seed", &seed.to_string()])
         .stdin(Stdio::piped())
@@ -499,7 +507,7 @@ pub fn run_batch(cfg: &BatchCfg) -> BatchResult {
     let chunk = (cfg.total / (nw as u64 * 24)).clamp(1, 2048);
     let mut next: u64 = 0;
     let mut pending: Vec<(u64, u64)> = vec![]; // re-queued remainders after a crash
-    let mut workers: Vec<Worker> = (0..nw).map(|w| spawn_worker(w, cfg.scenario.name(), cfg.property, cfg.tier, cfg.seed, tx.clone())).collect();
+    let mut workers: Vec<Worker> = (0..nw).map(|w| spawn_worker(w, cfg.scenario.name(), cfg.property, cfg.tier, cfg.seed, tx.clone(), cfg.scenario.worker_exe())).collect();
     let mut active = 0usize;
 
     let mut assign = |w: &mut Worker, next: &mut u64, pending: &mut Vec<(u64, u64)>, stop: bool| -> bool {
@@ -614,7 +622,7 @@ pub fn run_batch(cfg: &BatchCfg) -> BatchResult {
                         res.harness.push(format!("worker {w} died before starting a run ({sig})"));
                     }
                     // replace the worker
-                    let mut nwk = spawn_worker(w, cfg.scenario.name(), cfg.property, cfg.tier, cfg.seed, tx.clone());
+                    let mut nwk = spawn_worker(w, cfg.scenario.name(), cfg.property, cfg.tier, cfg.seed, tx.clone(), cfg.scenario.worker_exe());
                     if !assign(&mut nwk, &mut next, &mut pending, stop) {
                         active -= 1;
                     }
@@ -665,7 +673,11 @@ pub struct EvalOut {
 }
 
 pub fn eval_subprocess(scenario: &str, property: &str, tier: Tier, case: &Value, timeout_s: u64) -> EvalOut {
-    let exe = std::env::current_exe().expect("current_exe");
+    eval_subprocess_with(None, scenario, property, tier, case, timeout_s)
+}
+
+pub fn eval_subprocess_with(exe: Option<String>, scenario: &str, property: &str, tier: Tier, case: &Value, timeout_s: u64) -> EvalOut {
+    let exe = exe.map(std::path::PathBuf::from).unwrap_or_else(|| std::env::current_exe().expect("current_exe"));
     let mut child = match Command::new(exe)
         .args(["eval", "--scenario", scenario, "--property", property, "--tier", tier.name()])
         .stdin(Stdio::piped())
@@ -743,7 +755,7 @@ pub fn shrink(sc: &dyn Scenario, property: &str, tier: Tier, case: &Value, class
                 continue;
             }
             evals += 1;
-            let out = eval_subprocess(sc.name(), property, tier, &cand, 120);
+            let out = eval_subprocess_with(sc.worker_exe(), sc.name(), property, tier, &cand, 120);
             if class_of(&out.verdict) == Some(class) {
                 cur = cand;
                 progress = true;
@@ -803,7 +815,7 @@ pub fn replay(path: &str, lookup: &dyn Fn(&str) -> Option<&'static dyn Scenario>
         }
     };
     let tier = if r.tier == "thorough" { Tier::Thorough } else { Tier::Quick };
-    let out = eval_subprocess(sc.name(), &r.property, tier, &r.case, 300);
+    let out = eval_subprocess_with(sc.worker_exe(), sc.name(), &r.property, tier, &r.case, 300);
     match &out.verdict {
         Verdict::Violation { class, detail } if *class == r.class => {
             if out.digest != r.schedule_digest && !class.starts_with("abort/") {
